@@ -90,6 +90,20 @@ int SZ_Init_Params(sz_params *params)
 		return SZ_NSCS;
 	}
 
+	//derive the quantization state from the parameters, as SZ_ReadConf does for a configuration file
+	if(params->quantization_intervals>0)
+	{
+		updateQuantizationInfo(params->quantization_intervals);
+		confparams_cpr->max_quant_intervals = params->quantization_intervals;
+		exe_params->optQuantMode = 0;
+	}
+	else
+	{
+		exe_params->intvCapacity = confparams_cpr->maxRangeRadius*2;
+		exe_params->intvRadius = confparams_cpr->maxRangeRadius;
+		exe_params->optQuantMode = 1;
+	}
+
 	return SZ_SCES;
 }
 
